@@ -107,6 +107,7 @@ type treeCase struct {
 	URLs  []urlCall                    `json:"urls,omitempty"`
 	Names []nameCall                   `json:"names,omitempty"`
 	Via   string                       `json:"via,omitempty"`
+	Warm  int                          `json:"warm,omitempty"` // 2: requests are served BETWEEN the set-up calls too (unjudged): whatever the first requests make the router remember, later set-up calls count all the same
 }
 
 func (s aSeg) text() string {
@@ -810,16 +811,37 @@ func treeReplay(raw json.RawMessage, idx int, tr *traceWriter) {
 	if needFlame {
 		vias = []string{"flame"}
 	}
+	if c.Warm == 0 {
+		c.Warm = 1 + (idx+len(c.H))%2
+	}
 	for _, via := range vias {
-		var in interface{} = raw
-		if len(vias) > 1 || c.Via != via {
-			c2 := c
-			c2.Via = via
-			in = c2
-		}
+		c2 := c
+		c2.Via = via
+		var in interface{} = c2
 		tr.emit(map[string]interface{}{"case": idx, "ev": "reset", "input": in, "nt": len(c.H) > 1, "via": via})
 		x := newTreeExec(via, &c)
 		x.run(tr)
+	}
+}
+
+// warm serves a few requests in the middle of the set-up phase (nothing is recorded for them).
+func (x *treeExec) warm(m string) {
+	if x.c.Warm != 2 {
+		return
+	}
+	defer func() { _ = recover() }()
+	n := 0
+	for _, rq := range x.c.Reqs {
+		if n == 3 {
+			break
+		}
+		x.serve(rq.M, decBytes(rq.Raw), rq.H)
+		n++
+	}
+	if n == 0 && len(treeUniv.Paths) > 0 {
+		for _, pi := range []int{0, len(treeUniv.Paths) / 2, len(treeUniv.Paths) - 1} {
+			x.serve(m, "/"+strings.Join(treeUniv.Paths[pi], "/"), nil)
+		}
 	}
 }
 
@@ -869,12 +891,14 @@ func (x *treeExec) run(tr *traceWriter) {
 					"call": e.Call, "ck": ck, "detail": encBytes(detail)})
 			}
 			i = j
+			x.warm(e.M)
 			continue
 		}
 		acc, detail := x.register(i, e)
 		x.accept = append(x.accept, acc)
 		tr.emit(map[string]interface{}{"ev": "AddRoute", "m": e.M, "r": encRoute(e.R), "accepted": acc, "skipped": false, "call": e.Call, "ck": "single", "detail": encBytes(detail)})
 		i = j
+		x.warm(e.M)
 	}
 	for _, n := range c.Names {
 		if x.routes[n.Reg] == nil {
@@ -908,6 +932,7 @@ func (x *treeExec) run(tr *traceWriter) {
 			}
 			pairs = append(pairs, nm, hc.Expr)
 		}
+		x.warm("GET") // requests served before the constraints are (re-)specified ...
 		h.Headers(pairs...)
 		x.curHdr[call] = hp.Hdr
 		tr.emit(map[string]interface{}{"ev": "Headers", "call": call, "hdr": hdrOrEmpty(hp.Hdr)})
